@@ -1145,4 +1145,172 @@ Proof.
   - left. apply A; [reflexivity|]. rewrite Ha. discriminate.
 Qed.
 
+(* ================= C01 (sender): the Metadata and EOF PDUs a sender emits are its own; the file is fixed ================= *)
+Variable s_file0 : bytes.
+Definition pdu_true (m : metadata) (o : out) : Prop :=
+  match o with
+  | OPdu p => match o_payload p with
+              | PMetadata m' => m' = m
+              | PEof e => eof_size e = md_size m
+              | _ => True
+              end
+  | OInd _ => True
+  end.
+Definition SE (m : metadata) (s : sstate) : Prop :=
+  s_meta s = m /\ (forall e b, s_eof s = Some (e, b) -> eof_size e = md_size m) /\ Forall (pdu_true m) (s_out s) /\
+  s_file s = s_file0.
+Lemma SE_ext m (s s' : sstate) : SE m s -> s_meta s' = s_meta s -> s_eof s' = s_eof s -> s_out s' = s_out s ->
+  s_file s' = s_file s -> SE m s'.
+Proof. unfold SE. intros (A & B & C & D) E1 E2 E3 E4. rewrite E1, E2, E3, E4. auto. Qed.
+Lemma SE_out m o (s s' : sstate) : SE m s -> s_meta s' = s_meta s -> s_eof s' = s_eof s -> s_out s' = o :: s_out s ->
+  s_file s' = s_file s -> pdu_true m o -> SE m s'.
+Proof. unfold SE. intros (A & B & C & D) E1 E2 E3 E4 Ho. rewrite E1, E2, E3, E4. auto. Qed.
+Ltac se_leaf :=
+  lazymatch goal with
+  | |- SE ?m ?t => let b := strip_s t in
+      first [ eapply (SE_ext m b); [ | reflexivity | reflexivity | reflexivity | reflexivity ]
+            | eapply (SE_out m _ b); [ | reflexivity | reflexivity | reflexivity | reflexivity | cbn; exact I ] ]
+  end.
+Lemma SE_shutdown m now s : SE m s -> SE m (s_shutdown now s).
+Proof. intros H. unfold s_shutdown. se_leaf. exact H. Qed.
+Lemma SE_abandon m now s : SE m s -> SE m (s_abandon now s).
+Proof. intros H. unfold s_abandon. apply SE_shutdown. se_leaf. exact H. Qed.
+Lemma SE_suspend m now s : SE m s -> SE m (s_suspend now s).
+Proof. intros H. unfold s_suspend. se_leaf. exact H. Qed.
+Lemma SE_set_eof_flag m b s : SE m s -> SE m (set_eof_flag b s).
+Proof.
+  intros H. unfold set_eof_flag. destruct (s_eof s) as [[e f]|] eqn:Ee; [|exact H].
+  destruct H as (A & B & C & D). unfold SE. cbn. splits; auto.
+  intros e' b' Hx. inversion Hx; subst. apply (B e' f). exact Ee.
+Qed.
+Lemma SE_prepare_eof m fl s : SE m s -> SE m (prepare_eof fl s).
+Proof.
+  intros H. destruct (prepare_eof_fields fl s) as (E1 & _ & E3 & _ & _ & E6 & _).
+  destruct H as (HA & HB & HC & HD). unfold SE. rewrite E1, E6, E3. splits; auto.
+  intros e b Hx. unfold Send.prepare_eof in Hx. destruct (get_checksum cksum s) as [s1 ck] eqn:Eg.
+  cbn in Hx. inversion Hx; subst. cbn.
+  assert (Em : s_meta s1 = s_meta s).
+  { unfold Send.get_checksum in Eg. destruct (s_cksum s); [inversion Eg; reflexivity|].
+    destruct (s_is_file_transfer s); [destruct (md_ck (s_meta s))|]; inversion Eg; reflexivity. }
+  rewrite Em. reflexivity.
+Qed.
+Lemma SE_cancel_ m now c s : SE m s -> SE m (s_cancel_ now c s).
+Proof. intros H. unfold Send.s_cancel_. apply SE_prepare_eof. se_leaf. exact H. Qed.
+Lemma SE_handle_fault m now c s : SE m s -> SE m (s_handle_fault now c s).
+Proof.
+  intros H. unfold Send.s_handle_fault.
+  assert (H1 : SE m (semit_ind (IFault c (s_sent (set_s_cond c s))) (set_s_cond c s))) by (se_leaf; exact H).
+  destruct (handler _ c); [apply SE_cancel_ | apply SE_suspend | | apply SE_abandon]; exact H1.
+Qed.
+Lemma SE_ht_ack_eof m now s : SE m s -> SE m (ht_ack_eof cksum now s).
+Proof.
+  intros H. unfold ht_ack_eof, c_timeout_occurred. cbn [fst snd].
+  set (s3 := supd_ack (fun _ => c_update now (t_ack (s_timer s))) s).
+  assert (H3 : SE m s3) by (unfold s3; se_leaf; exact H). clearbody s3.
+  destruct (c_occurred (c_update now (t_ack (s_timer s)))); [|exact H3].
+  destruct (c_count (c_update now (t_ack (s_timer s))) =? c_max (c_update now (t_ack (s_timer s))));
+    [apply SE_handle_fault | apply SE_set_eof_flag]; exact H3.
+Qed.
+Lemma SE_handle_timeout m now s : SE m s -> SE m (s_handle_timeout now s).
+Proof.
+  intros H. unfold Send.s_handle_timeout, c_limit_reached.
+  destruct (s_phase s) eqn:Ep; try exact H; cbn [fst snd].
+  - set (s1 := supd_inact (fun _ => c_update now (t_inact (s_timer s))) s).
+    assert (H1 : SE m s1) by (unfold s1; se_leaf; exact H). clearbody s1.
+    destruct (c_count (c_update now (t_inact (s_timer s))) =? c_max (c_update now (t_inact (s_timer s)))); cbn [andb].
+    + pose proof (SE_handle_fault m now InactivityDetected s1 H1) as H2.
+      destruct (negb (sphase_eqb (s_phase (s_handle_fault now InactivityDetected s1)) SendEof)
+                || negb (tstate_eqb (s_state (s_handle_fault now InactivityDetected s1)) TActive));
+        [exact H2|apply SE_ht_ack_eof; exact H2].
+    + apply SE_ht_ack_eof; exact H1.
+  - set (s1 := supd_inact (fun _ => c_update now (t_inact (s_timer s))) s).
+    assert (H1 : SE m s1) by (unfold s1; se_leaf; exact H). clearbody s1.
+    destruct (c_count (c_update now (t_inact (s_timer s))) =? c_max (c_update now (t_inact (s_timer s))));
+      [apply SE_abandon; exact H1|].
+    unfold c_timeout_occurred. cbn [fst snd].
+    set (s3 := supd_ack (fun _ => c_update now (t_ack (s_timer s1))) s1).
+    assert (H3 : SE m s3) by (unfold s3; se_leaf; exact H1). clearbody s3.
+    destruct (c_occurred (c_update now (t_ack (s_timer s1)))); [|exact H3].
+    destruct (c_count (c_update now (t_ack (s_timer s1))) =? c_max (c_update now (t_ack (s_timer s1))));
+      [apply SE_abandon | apply SE_set_eof_flag]; exact H3.
+Qed.
+Lemma SE_process_pdu m now p s : SE m s -> SE m (fst (s_process_pdu now p s)).
+Proof.
+  intros H. unfold Send.s_process_pdu.
+  set (s0 := if sphase_eqb (s_phase s) SendEof && negb (ssuspended s) then supd_inact (c_reset now) s else s).
+  assert (H0 : SE m s0) by (unfold s0; destruct (_ && _); [se_leaf|]; exact H). clearbody s0. clear H.
+  destruct (cfg_mode (s_cfg s0)); destruct p; cbn [fst]; try exact H0.
+  - se_leaf. exact H0.
+  - destruct (ack_dir a); cbn [fst]; exact H0.
+  - destruct (md_closure (s_meta s0)); cbn [fst]; [|exact H0]. apply SE_shutdown. se_leaf. exact H0.
+Qed.
+Lemma SE_send_metadata m s : SE m s -> SE m (send_metadata s).
+Proof.
+  intros H. unfold Send.send_metadata, semit_pdu.
+  eapply (SE_out m _ s); [exact H | reflexivity | reflexivity | reflexivity | reflexivity |]. cbn. destruct H as (A & _). exact A.
+Qed.
+Lemma SE_send_file_segment m off len s : SE m s -> SE m (send_file_segment off len s).
+Proof. intros H. unfold Send.send_file_segment. se_leaf. exact H. Qed.
+Lemma SE_send_missing_data m now s : SE m s -> SE m (fst (send_missing_data now s)).
+Proof.
+  intros H. unfold Send.send_missing_data. destruct (s_naks s) as [|[a b] t]; [exact H|].
+  assert (H1 : SE m (supd_inact (c_restart now) (set_s_naks t s))) by (se_leaf; exact H).
+  destruct (65535 <? b - a); cbn [fst]; [exact H1|].
+  destruct ((a =? 0) && (b - a =? 0)); cbn [fst]; [apply SE_send_metadata|apply SE_send_file_segment]; exact H1.
+Qed.
+Lemma SE_send_eof m now s : SE m s -> SE m (send_eof now s).
+Proof.
+  intros H. unfold Send.send_eof. destruct (s_eof s) as [[e [|]]|] eqn:Ee; try exact H.
+  apply SE_set_eof_flag. unfold semit_pdu.
+  eapply (SE_out m _ (supd_ack (c_restart now) s)); [se_leaf; exact H | reflexivity | reflexivity | reflexivity | reflexivity |].
+  cbn. destruct H as (_ & B & _). apply (B e true Ee).
+Qed.
+Lemma SE_send_pdu m now s : SE m s -> SE m (fst (s_send_pdu now s)).
+Proof.
+  intros H. unfold Send.s_send_pdu.
+  destruct (is_some (s_prompt s)); cbn [fst].
+  { unfold Send.send_prompt. destruct (s_prompt s); [se_leaf|]; exact H. }
+  destruct (s_phase s) eqn:Ep.
+  - pose proof (SE_send_metadata m s H) as H1. destruct (_ && _); cbn [fst].
+    + se_leaf. exact H1.
+    + unfold enter_send_eof. eapply (SE_ext m (prepare_eof None (send_metadata s))); [apply SE_prepare_eof; exact H1 | reflexivity ..].
+  - assert (H1 : SE m (fst (if negb (is_nil (s_naks s)) then send_missing_data now s
+                               else (send_file_segment (s_pos s) (cfg_seg (s_cfg s)) s, ROk)))).
+    { destruct (negb _); [apply SE_send_missing_data; exact H|]. cbn [fst]. apply SE_send_file_segment. exact H. }
+    destruct (if negb (is_nil (s_naks s)) then _ else _) as [s1 r]. cbn [fst] in H1.
+    destruct r; cbn [fst]; try exact H1.
+    destruct (_ =? _); cbn [fst]; [|exact H1].
+    unfold enter_send_eof. eapply (SE_ext m (prepare_eof None s1)); [apply SE_prepare_eof; exact H1 | reflexivity ..].
+  - destruct (negb _); [apply SE_send_missing_data; exact H|].
+    pose proof (SE_send_eof m now s H) as H1.
+    set (s1 := send_eof now s) in *. clearbody s1.
+    assert (H2 : SE m (if s_eof_ind s1 then set_s_eof_ind false (semit_ind IEoFSent s1) else s1)).
+    { destruct (s_eof_ind s1); [se_leaf|]; exact H1. }
+    remember (if s_eof_ind s1 then _ else s1) as s2 eqn:E2. clear E2 H1.
+    destruct (cfg_mode (s_cfg s2)); cbn [fst]; [exact H2|].
+    destruct (md_closure (s_meta s2)); cbn [fst]; [exact H2|].
+    apply SE_shutdown. se_leaf. exact H2.
+  - cbn [fst]. apply SE_send_eof. exact H.
+  - cbn [fst]. unfold Send.send_ack. destruct (s_ack s); [apply SE_shutdown; se_leaf|]; exact H.
+Qed.
+Theorem SE_sstep m now o s : SE m s -> SE m (fst (sstep now o s)).
+Proof.
+  intros H. unfold Send.sstep.
+  assert (H0 : SE m (set_s_out [] s)).
+  { destruct H as (A & B & C & D). unfold SE. cbn. splits; auto. }
+  remember (set_s_out [] s) as s0 eqn:E0. clear E0 H.
+  destruct o; cbn [fst].
+  - apply SE_process_pdu; exact H0.
+  - destruct (s_has_pdu_to_send _); [apply SE_send_pdu|]; exact H0.
+  - destruct (s_until_timeout now _) as [[|?]|]; [apply SE_handle_timeout| |]; exact H0.
+  - apply SE_cancel_; exact H0.
+  - apply SE_suspend; exact H0.
+  - unfold s_resume. destruct (s_phase _); se_leaf; exact H0.
+  - unfold s_send_report. se_leaf. exact H0.
+  - apply SE_shutdown; exact H0.
+  - se_leaf. exact H0.
+Qed.
+Lemma SE_init now cfg m : SE m (s_new now cfg m s_file0).
+Proof. unfold SE, s_new. cbn. splits; auto; [intros e b Hx; discriminate|repeat constructor]. Qed.
+
 End SendP.
